@@ -15,11 +15,11 @@ FATAL = {
             "shim": MEMSHIM, "shim_when": "inj", "must_exercise": ("FailAtomic",)},
     "C06": {"always": ("SizeSafe",), "when": {"size": ("RcOK", "BlocksOK", "EndClean", "TextOK", "Isolation", "Utf8OK", "CapOK", "WithCap", "ReservePost", "ResultOK", "Abort")}, "conv": ("BigSizeOK",),
             "shim": MEMSHIM, "shim_when": "size", "must_exercise": ("SizeSafe",)},
-    "C07": {"always": ("RejectedIsNoop", "Utf8OK", "ResultOK.index"), "must_exercise": ("RejectedIsNoop",)},
-    "C08": {"always": ("CloneCheap",), "must_exercise": ("CloneCheap",), "conv": ("BigCloneOK",)},
-    "C09": {"always": ("CtorStorage", "InlineEdit", "PtrOK"), "must_exercise": ("CtorStorage", "InlineEdit"),
+    "C07": {"always": ("RejectedIsNoop", "Utf8OK", "ResultOK.index", "Abort"), "must_exercise": ("RejectedIsNoop",)},
+    "C08": {"always": ("CloneCheap", "Abort"), "must_exercise": ("CloneCheap",), "conv": ("BigCloneOK",)},
+    "C09": {"always": ("CtorStorage", "InlineEdit", "PtrOK", "Abort"), "must_exercise": ("CtorStorage", "InlineEdit"),
             "conv": ("IntStorage", "BoolStorage", "CharStorage", "StrStorage", "FloatStorage")},
-    "C17": {"always": ("TextOnly",), "must_exercise": ("TextOnly", "TextOnlySame")},
+    "C17": {"always": ("TextOnly", "Abort"), "must_exercise": ("TextOnly", "TextOnlySame")},
     # C20: the niche and the representation invariants, plus C01-C03's predicates on every build configuration
     "C20": {"always": ("NicheFree", "PtrOK", "TextOK", "ResultOK", "Isolation", "StaticsOK", "RcOK", "BlocksOK", "NoResizeShared", "EndClean", "Abort"),
             "shim": MEMSHIM, "must_exercise": ("InlineEdit",),
@@ -27,17 +27,17 @@ FATAL = {
             "conv": ("IntText", "IntStorage", "BoolText", "CharText", "StrText", "DispOK", "FloatOK")},
     # "the first operation that needs to write or grow moves the handle to its own storage with the correct contents":
     # text / outcome / capacity predicates count for calls whose target was a static handle
-    "C10": {"always": ("StaticBorrow", "StaticPrefix", "StaticsOK"), "when_target": {"static": ("TextOK", "ResultOK", "CapOK", "Utf8OK")},
+    "C10": {"always": ("StaticBorrow", "StaticPrefix", "StaticsOK", "Abort"), "when_target": {"static": ("TextOK", "ResultOK", "CapOK", "Utf8OK")},
             "must_exercise": ("StaticBorrow",), "conv": ("BigStaticOK",)},
-    "C11": {"always": ("CapOK", "WithCap", "ReservePost", "NoReallocInCap"), "must_exercise": ("WithCap", "ReservePost", "NoReallocInCap"), "conv": ("NoMoveOK", "BigOpOK")},
-    "C12": {"always": ("Growth",), "must_exercise": ("Growth",), "conv": ("GrowOK", "LoopOK")},
-    "C13": {"always": ("ShrinkPost",), "must_exercise": ("ShrinkPost",), "conv": ("ShrinkOK",)},
+    "C11": {"always": ("CapOK", "WithCap", "ReservePost", "NoReallocInCap", "Abort"), "must_exercise": ("WithCap", "ReservePost", "NoReallocInCap"), "conv": ("NoMoveOK", "BigOpOK")},
+    "C12": {"always": ("Growth", "Abort"), "must_exercise": ("Growth",), "conv": ("GrowOK", "LoopOK")},
+    "C13": {"always": ("ShrinkPost", "Abort"), "must_exercise": ("ShrinkPost",), "conv": ("ShrinkOK",)},
     "C04": {},
-    "C14": {"conv": ("IntText",)},
+    "C14": {"conv": ("IntText",)},      # (ConvAbort / ConvMemory are fatal for every conv stage)
     "C15": {"conv": ("BoolText", "CharText", "StrText", "DispOK", "FloatOK"), "always": ("ResultOK.display", "TextOK.display")},
     "C16": {"codec": ("utf8", "utf8_lossy", "utf16", "utf16_lossy", "memory", "abort"), "always": ("TextOK.decode", "ResultOK.decode", "Utf8OK")},
     "C19": {"codec": ("de_*", "abort"), "conv": ("SerOK", "ArbOK")},
-    "C18": {"always": ("CallbackPanicOK",), "when": {"cbpanic": ("RcOK", "BlocksOK", "EndClean", "TextOK", "Isolation", "Abort")},
+    "C18": {"always": ("CallbackPanicOK", "Abort"), "when": {"cbpanic": ("RcOK", "BlocksOK", "EndClean", "TextOK", "Isolation", "Abort")},
             "shim": MEMSHIM, "shim_when": "cbpanic", "must_exercise": ("CallbackPanicOK",)},
 }
 
@@ -96,7 +96,7 @@ PROFILES = {
     "C11": {"quick": [SEED2, CORE3, FAIL2, SCALE, PROOF, dq("all")], "thorough": [SEED3, CORE4, FAIL2, SIZES2, SHRINK2, SCALE, PROOF, dt("all")]},
     "C12": {"quick": [SEED2, CORE3, FAIL2, SCALE, dq("all")], "thorough": [SEED3, CORE4, FAIL2, SIZES2, SHRINK2, SCALE, dt("all")]},
     "C13": {"quick": [SEED2, SHRINK2, FAIL2, SCALE, dq("all")], "thorough": [SEED3, CORE4, SHRINK2, FAIL2, SIZES2, SCALE, dt("all")]},
-    "C14": {"quick": [CONV], "thorough": [CONV, {"kind": "sweep", "what": "u32"}, {"kind": "sweep", "what": "i32"}]},
+    "C14": {"quick": [CONV, {"kind": "conv", "profile": "debug", "files": 2}], "thorough": [CONV, {"kind": "conv", "profile": "debug", "files": 2}, {"kind": "sweep", "what": "u32"}, {"kind": "sweep", "what": "i32"}]},
     "C15": {"quick": [CONV, SEED1], "thorough": [CONV, SEED2, {"kind": "sweep", "what": "f32"}]},
     "C16": {"quick": [{"kind": "codec", "cfg": "MC_Codec_u8_q"}, {"kind": "codec", "cfg": "MC_Codec_u16_q"}, {"kind": "codec", "cfg": "MC_Codec_u8_all"}, {"kind": "codec", "cfg": "MC_Codec_u16_all"},
                       mc("MC_Decode_d2"), dq("mixed")],
